@@ -26,17 +26,28 @@ def FnMember.raw (a : τ) (m : FnMember τ) : TSig τ :=
   if m.static then m.hdr.tsig
   else ⟨⟨"self", if m.hdr.po.isEmpty then .posOrKw else .posOnly, false, a⟩ :: m.hdr.tparams, m.hdr.ret⟩
 
-/-- **D07.staticFirst** — a staticmethod is involved and the headers themselves are not
-compatible: `_can_assign_to_base_callable` strips the first parameter of a staticmethod as if it
-were `self`, so that parameter (its presence, default, kind, annotation) is never compared. -/
-def D07_staticFirst (R : TyRel τ) (b c : FnMember τ) : Bool :=
+/-- The class-body binding as the model sees it. -/
+def FnMember.member (a : τ) (m : FnMember τ) : Member τ := .fn m.static (m.raw a)
+
+/-- `_can_assign_to_base_callable` **before** /repo 7244153: both signatures went through
+`bind_self`, staticmethod or not. Kept for the regression theorem only. -/
+def old_callableOk (R : TyRel τ) (base child : TSig τ) : Bool :=
+  match bindSelf base with
+  | none => true
+  | some b =>
+    match bindSelf child with
+    | none => false
+    | some c => sigCanAssign R b c
+
+/-- The repaired exception class `staticFirst` (a staticmethod is involved and the headers
+themselves are not compatible), kept for the regression theorem only. -/
+def old_D07_staticFirst (R : TyRel τ) (b c : FnMember τ) : Bool :=
   (b.static || c.static) && !sigCanAssign R b.hdr.tsig c.hdr.tsig
 
 /-- Property override, specification side, for an inclusion test `incl S T` ("S ⊆ T"). -/
 def propSpecOk (incl : τ → τ → Bool) (bt : τ) (bs : Bool) (ct : τ) (cs : Bool) : Bool :=
   incl ct bt && (!bs || (cs && incl bt ct))
 
-def d07FnClasses (R : TyRel τ) (b c : FnMember τ) : List String :=
-  (if D07_staticFirst R b c then ["staticFirst"] else []) ++ d07Classes b.hdr c.hdr
+def d07FnClasses (b c : FnMember τ) : List String := d07Classes b.hdr c.hdr
 
 end Pya.C07
